@@ -1,6 +1,7 @@
 import Driver.Proto
 import Verif.Spec.C09JsLex
 import Verif.Model.C09JsWriter
+import Verif.Spec.C09JsStr
 /-! driver handlers for property C09, JavaScript slice (ops `spec.c09.js.*`, `model.c09.js.*`) -/
 namespace Verif.Driver.C09Js
 open Verif Verif.Driver Verif.Spec.C09JsLex
@@ -42,6 +43,21 @@ def emitH : Handler := fun args => do
     | [] => .error "empty token")
   .ok (charsToBytes (Verif.Model.C09JsWriter.emitX toks))
 
-def handlers : List (String × Handler) := [("spec.c09.js.lex", lexH), ("model.c09.js.emit", emitH)]
+/-- `spec.c09.js.strval <literal>` → the value of the string literal / template without substitutions as bytes -/
+def strvalH : Handler := fun args => do
+  let cs ← argChars args 0
+  match Verif.Spec.C09JsStr.strValue cs with
+  | some v => .ok (v.map (fun n => UInt8.ofNat n))
+  | none => .error "not a well-formed literal"
+
+/-- `spec.c09.js.strok <input literal> <output literal>` → `1` iff same value, no `</script`, no new `<!--` -/
+def strokH : Handler := fun args => do
+  let a ← argChars args 0
+  let b ← argChars args 1
+  .ok (boolBytes (Verif.Spec.C09JsStr.strOutOk a b))
+
+def handlers : List (String × Handler) :=
+  [("spec.c09.js.lex", lexH), ("model.c09.js.emit", emitH), ("spec.c09.js.strval", strvalH),
+   ("spec.c09.js.strok", strokH)]
 
 end Verif.Driver.C09Js
